@@ -269,6 +269,20 @@ def rule_r3(p, res):
         r.instance(f)
         lab_p = f.params[1]
         wraps = [n for n in walk_own(f.node) if isinstance(n, ast.If) and norm(n.test) == "isinstance(%s, str)" % lab_p and any(norm(x) == "%s = [%s]" % (lab_p, lab_p) for x in n.body)]
+        if not wraps:
+            # the same normalisation done by a helper the selector is passed through: h(labels) with `if isinstance(q, str): return [q]` / `q = [q]`
+            from ..calls import CallCtx
+            ctx = CallCtx(p, f, f.cls)
+            for k in calls_in(f.node, include_nested=True):
+                if any(isinstance(a_, ast.Name) and a_.id == lab_p for a_ in k.args) or any(isinstance(kw.value, ast.Name) and kw.value.id == lab_p for kw in k.keywords):
+                    for t_ in ctx.resolve_call(k):
+                        h = t_.func
+                        if h is f or h.cls is not None:
+                            continue
+                        for q in h.params:
+                            for n in walk_own(h.node):
+                                if isinstance(n, ast.If) and norm(n.test) == "isinstance(%s, str)" % q and any(norm(x) in ("%s = [%s]" % (q, q), "return [%s]" % q) for x in n.body):
+                                    wraps.append(n)
         r.check(len(wraps) == 1, f, f.node, "%s must turn a single label given as a string into a one-element list: otherwise the string is iterated / substring-matched character by character "
                 "and other labels are selected or dropped" % f.short, {"selector": f.short, "wraps_string": len(wraps) == 1})
         rr = returns_of(f.node)
